@@ -88,6 +88,13 @@ Definition is_ent_b (z : zone) (n : rname) : bool :=
 Definition cut_types_b (tys : list N) : bool := (has_type tys T_NS && negb (has_type tys T_SOA)) || has_type tys T_DNAME.
 Definition below_cut_b (z : zone) (n : rname) : bool :=
   existsb (fun nd => cut_types_b (snd nd) && strict_prefix_b (fst nd) n) (z_nodes z).
+(* strictly below a delegation that carries a DS, or below a DNAME owner: such a name belongs to a signed child zone
+   (or is rewritten); the parent's chain can prove nothing "insecure" about it — every name on the way down to the
+   cut is in the chain, so no genuine Opt-Out span covers the next closer name (round 6) *)
+Definition secure_cut_types_b (tys : list N) : bool :=
+  (has_type tys T_NS && negb (has_type tys T_SOA) && has_type tys T_DS) || has_type tys T_DNAME.
+Definition below_secure_cut_b (z : zone) (n : rname) : bool :=
+  existsb (fun nd => secure_cut_types_b (snd nd) && strict_prefix_b (fst nd) n) (z_nodes z).
 (* longest proper prefix of q that exists, searching downwards from length k *)
 Fixpoint ce_search (z : zone) (q : rname) (k : nat) : option rname :=
   if exists_direct_b z (firstn k q) then Some (firstn k q)
